@@ -236,6 +236,11 @@ func (e *Engine) builtin(fr *frame, st *State, x *ssa.Call, b *ssa.Builtin) Valu
 			}
 			return r
 		}
+		if as != nil && as.Buf != nil && as.LenOK && as.Off != nil && (bs == nil || bs.Buf == nil) {
+			// opaque bytes appended after a known prefix
+			st.tails[as.Buf.ID] = append(st.tails[as.Buf.ID], Tail{Off: as.Off.add(affConst(as.LenC), 1), What: describe(bv)})
+			return &SliceV{Buf: as.Buf, Off: as.Off}
+		}
 		if as != nil && as.Buf != nil {
 			// appending to a buffer of unknown length: contents after the old end are unknown
 			e.note("append to a buffer of unknown length in %s", fr.fn.Name())
